@@ -137,11 +137,14 @@ class DefaultHandler(BaseHandler):
             }
             msg_record.update(msg)
             try:
-                json.dump(msg_record, msg_file)
+                line = json.dumps(msg_record)
             except Exception as e:
                 LOG.error(e)
                 LOG.info('raw message %s', msg)
-            msg_file.write('\n')
+                # the payload cannot be serialised: keep the record, store the payload as text
+                msg_record['msg'] = repr(msg.get('msg'))
+                line = json.dumps(msg_record)
+            msg_file.write(line + '\n')
             self.msg_sequence[peer.lower()] += 1
             msg_file.flush()
             os.fsync(msg_file.fileno())
